@@ -236,6 +236,10 @@ type Ordered[T any] interface{ Less(T) bool }
 
 type handler = func(int) error
 
+type Panic func(v any)
+
+type Nil struct{}
+
 type locAlias = Loc
 `
 
